@@ -246,10 +246,39 @@ pub fn run(ctx: &Ctx, st: &mut Stats) -> Vec<Violation> {
     }
     assert_eq!(triples.len(), 3276);
     let nt = triples.len() as u64;
+    // the triples are visited in a different order for each shape (transfer, primaries or matrix varying
+    // fastest, or shuffled): the contract of a conversion must not depend on which conversion ran before it
+    let mut orders: Vec<Vec<usize>> = Vec::new();
+    let idx = |m: usize, p: usize, t: usize| -> usize { (m * 13 + p) * 18 + t };
+    orders.push((0..triples.len()).collect());
+    let mut o2 = Vec::new();
+    for t in 0..18 {
+        for m in 0..14 {
+            for p in 0..13 {
+                o2.push(idx(m, p, t));
+            }
+        }
+    }
+    orders.push(o2);
+    let mut o3 = Vec::new();
+    for p in 0..13 {
+        for t in 0..18 {
+            for m in 0..14 {
+                o3.push(idx(m, p, t));
+            }
+        }
+    }
+    orders.push(o3);
+    let mut o4: Vec<usize> = (0..triples.len()).collect();
+    let mut e = Expand(ctx.seed ^ 0xC14);
+    for i in (1..o4.len()).rev() {
+        o4.swap(i, e.below(i as u64 + 1) as usize);
+    }
+    orders.push(o4);
     let out = par_sweep(ctx, st, nt * SHAPES.len() as u64, |lo, hi, st| {
         for i in lo..hi {
-            let (m, p, t) = triples[(i % nt) as usize];
             let sh = SHAPES[(i / nt) as usize];
+            let (m, p, t) = triples[orders[(i / nt) as usize % orders.len()][(i % nt) as usize]];
             if let Err(v) = check_triple(m, p, t, sh, st) {
                 return Some(v);
             }
@@ -280,4 +309,4 @@ pub fn replay(v: &Value) -> Result<(), String> {
     check_triple(c.matrix_coefficients, c.color_primaries, c.transfer_characteristics, Shape { ss, full, img }, &mut Stats::new()).map_err(|v| v.message)
 }
 
-pub const RULE: &str = "complete enumeration (both tiers): every fully specified (MatrixCoefficients, ColorPrimaries, TransferCharacteristic) triple (14 x 13 x 18 = 3276) x 12 conversions on a 4x4 image, repeated for 14 shapes: subsampling 4:4:4, 4:2:0, 4:2:2, 4:1:0 (2,2), 4:4:0 x limited/full x image content {colourful in-gamut, achromatic (grey pixels / neutral chroma), out-of-gamut floats / extreme codes} (YUV<->RGB in u8 and u16 storage, gamma<->linear, YUV<->linear, YUV<->XYB, RGB<->XYB). Oracle: no panic; the 7 x 11 x 14 supported triples succeed everywhere; an error is an Unsupported* variant naming a field the conversion uses and that is responsible (counterfactual: replacing only that field by BT.709/BT.1886 removes that error); forward Ok iff reverse Ok; YUV<->RGB and gamma<->linear pairs fail with the same error; with a standard matrix YUV<->RGB output is bit-identical for all transfer/primaries values. A case = one (triple, shape) (all 12 conversions and their counterfactuals); non-trivial = triple outside the all-supported set; distinct by construction";
+pub const RULE: &str = "complete enumeration (both tiers): every fully specified (MatrixCoefficients, ColorPrimaries, TransferCharacteristic) triple (14 x 13 x 18 = 3276) x 12 conversions on a 4x4 image, repeated for 14 shapes: subsampling 4:4:4, 4:2:0, 4:2:2, 4:1:0 (2,2), 4:4:0 x limited/full x image content {colourful in-gamut, achromatic (grey pixels / neutral chroma), out-of-gamut floats / extreme codes} (YUV<->RGB in u8 and u16 storage, gamma<->linear, YUV<->linear, YUV<->XYB, RGB<->XYB). Oracle: no panic; the 7 x 11 x 14 supported triples succeed everywhere; an error is an Unsupported* variant naming a field the conversion uses and that is responsible (counterfactual: replacing only that field by BT.709/BT.1886 removes that error); forward Ok iff reverse Ok; YUV<->RGB and gamma<->linear pairs fail with the same error; with a standard matrix YUV<->RGB output is bit-identical for all transfer/primaries values. The triples of each shape are visited in one of four orders (transfer, primaries or matrix varying fastest, shuffled). A case = one (triple, shape) (all 12 conversions and their counterfactuals); non-trivial = triple outside the all-supported set; distinct by construction";
